@@ -114,6 +114,7 @@ func (m *Meta) GetAllProperties() []*Property {
 	for _, groupNodes := range m.propertyGroup {
 		props = append(props, groupNodes...)
 	}
+	props = verifOrderProperties(m, props)
 	return props
 }
 
